@@ -21,6 +21,28 @@ CLAIMS: dict[str, dict] = {
                 "component graphs are judged by TLC against the same contract.",
         "design_ref": "DESIGN.md section 5, C02",
     },
+    "C01": {
+        "technique": "TLA+ spec (MxlModel semantics over FnLib, ModelEval shape family) checked by TLC (exhaustive small family "
+                     "+ seeded -simulate rich family, five semantic theorems); spec->code replay through all eight entry points",
+        "text": "The meaning of a model (saturation evaluator, static closure, stoichiometry x fluxes) is an explicit TLA+ "
+                "module; TLC builds every model of a bounded family action by action and seeded random members of a rich "
+                "family (chains, forward references, computed coefficients, two-output surrogate, data, time), checks "
+                "order-invariance / frozen-parameter / untouched-variable theorems on each, and emits predicted tables at "
+                "three states; the real Model is built in shuffled declaration order and every entry point (positional, "
+                "named, fluxes, args, stoichiometries and the three time-course forms) must return those numbers.",
+        "design_ref": "DESIGN.md section 5, C01",
+    },
+    "C13": {
+        "technique": "same TLA+ specification as C01 (InitEnv / Static / Frozen operators, theorems StaticIsReachability, "
+                     "FrozenIsConstant, InitConsistent checked by TLC); spec->code replay of initial conditions, derived-parameter "
+                     "classification, frozen-versus-recomputed tables, Simulator default y0",
+        "text": "Initial assignments on variables and parameters chained through derived quantities, rates and surrogate "
+                "outputs are evaluated by the specification once at t=0; TLC proves in the bound that the static closure is "
+                "graph reachability and that frozen names are constant over states; the real model must report the same "
+                "initial conditions, parameter values, derived-parameter names and, at states != initial and t != 0, the "
+                "same full table.",
+        "design_ref": "DESIGN.md section 5, C13",
+    },
 }
 
 NOT_YET = "check not built yet (planned, see DESIGN.md section 5)"
